@@ -4,6 +4,8 @@ from .id_std import identify
 from .utils import Identification
 from ..conditional_independencies import are_d_separated
 from ...dsl import Expression, Variable
+from ..._verif import ON as _VERIF_ON
+from ..._verif import trace as _trace
 
 __all__ = [
     "idc",
@@ -21,9 +23,13 @@ def idc(identification: Identification) -> Expression:
     """
     for condition in identification.conditions:
         if rule_2_of_do_calculus_applies(identification=identification, condition=condition):
+            if _VERIF_ON:
+                _trace("idc.rule2.exchange", condition=condition)
             return idc(identification.exchange_observation_with_action(condition))
 
     # Run ID algorithm
+    if _VERIF_ON:
+        _trace("idc.identify", n_conditions=len(identification.conditions))
     id_estimand = identify(identification.uncondition())
     return id_estimand.normalize_marginalize(identification.outcomes)
 
